@@ -15,7 +15,7 @@
                                     [go_match] below is a transcription of Go 1.23's algorithm used
                                     for the correspondence runs (validated by kind 1802)
      sort.Strings                -> sort_bytes (insertion sort, bytewise order cmp_bytes)
-     dedupePaths                 -> dedupe_paths (incl. the "." => nil rule)
+     dedupePaths                 -> dedupe_paths (incl. the "." => nil rule; every kept path is checked)
 
    Paths are kept as lists of components.  In the Go code [p] is always
      Join(".", Join("/", x))  =  a clean relative path without "..", or "."
@@ -154,14 +154,19 @@ Fixpoint insert_sorted (x : bytes) (l : list bytes) : list bytes :=
   end.
 Definition sort_bytes (l : list bytes) : list bytes := fold_right insert_sorted [] l.
 
-(* None = the nil slice returned when "." is met *)
-Fixpoint dedupe_from (last : bytes) (l : list bytes) : option (list bytes) :=
+(* [inside a b]: b is strictly below a, i.e. strings.HasPrefix(b, a+"/") *)
+Definition inside (a b : bytes) : bool := has_prefix (a ++ [sep]) b.
+
+(* None = the nil slice returned when "." is met.  [kept] = the paths appended to
+   [out] so far (every one of them is checked, fix 61f1f84); the result lists the
+   paths kept from [l], in order. *)
+Fixpoint dedupe_from (kept : list bytes) (l : list bytes) : option (list bytes) :=
   match l with
   | [] => Some []
   | s :: r =>
     if bytes_eqb s s_dot then None
-    else if has_prefix (last ++ [sep]) s then dedupe_from last r
-    else option_map (cons s) (dedupe_from s r)
+    else if existsb (fun o => inside o s) kept then dedupe_from kept r
+    else option_map (cons s) (dedupe_from (s :: kept) r)
   end.
 Definition dedupe_paths (l : list bytes) : option (list bytes) := dedupe_from [] l.
 
@@ -610,8 +615,7 @@ Fixpoint sorted_b (l : list bytes) : bool :=
   | _ => true
   end.
 
-(* no element is inside another: a ++ "/" is not a prefix of b, for all a <> b *)
-Definition inside (a b : bytes) : bool := has_prefix (a ++ [sep]) b.
+(* no element is inside another: a ++ "/" is not a prefix of b *)
 Definition minimal_b (l : list bytes) : bool :=
   forallb (fun a => forallb (fun b => negb (inside a b)) l) l.
 
@@ -637,6 +641,3 @@ Fixpoint wild_last_only_c (cs : list bytes) : bool :=
   end.
 Definition wild_last_only (reqs : list bytes) : bool :=
   forallb (fun s => wild_last_only_c (norm_clamp (comps s))) reqs.
-
-Fixpoint has_low_byte (s : bytes) : bool :=
-  match s with [] => false | a :: r => N.ltb a sep || has_low_byte r end.
